@@ -140,4 +140,7 @@ class FixedWindowCandidates:
                 current_instances = self.add_new_tracks(
                     current_instances, add_to_queue=add_to_queue
                 )
+        elif row_inds is not None:
+            # nothing could be matched (every score is NaN): all detections are unmatched
+            current_instances = self.add_new_tracks(current_instances)
         return current_instances
